@@ -30,6 +30,7 @@ Step(e) ==
     CASE e.op = "Set"       -> Set(<<e.p, e.k>>, FixV(e.v))
       [] e.op = "RoundTrip" -> RoundTrip(e.fmt)
       [] e.op = "Adopt"     -> Adopt
+      [] e.op = "Rebuild"   -> Rebuild
       [] e.op = "Render"    -> Render(e.virtual, e.mask, e.via)
 TraceNext == l <= Len(Traces[tid].events) /\ Step(Ev) /\ l' = l + 1 /\ UNCHANGED <<tid, steps>>
 
